@@ -68,6 +68,16 @@ Theorem c06_through_final_cursor : C06_through_final_cursor.
 Proof. exact c06_through_final_cursor_proof. Qed.
 Print Assumptions c06_through_final_cursor.
 
+(* a target cursor below the start block has already passed: plain delivery from the start block *)
+Theorem c06_through_passed : C06_through_passed.
+Proof. exact c06_through_passed_proof. Qed.
+Print Assumptions c06_through_passed.
+
+(* the code before the fix C06-through-cursor-passed ended such a stream with "not implemented" *)
+Theorem c06_through_passed_unfixed_refuted : C06_through_passed_unfixed_refuted.
+Proof. exact c06_through_passed_unfixed_refuted_proof. Qed.
+Print Assumptions c06_through_passed_unfixed_refuted.
+
 (* the resolver before the fix did not serve a final target cursor *)
 Theorem c06_through_final_cursor_unfixed_refuted : C06_through_final_cursor_unfixed_refuted.
 Proof. exact c06_through_final_cursor_unfixed_refuted_proof. Qed.
@@ -207,6 +217,14 @@ Example c06_nonvacuous_consumer_undo_on_chain :
   branch_from nv_L ([a 3 2; a 4 3] ++ [a 6 4]) /\ Forall (on_canon (nv_L :: nv_rest)) ([a 3 2; a 4 3] ++ [a 6 4]) /\
   bref (a 6 4) = cu_blk (cur SUndo (a 6 4)).
 Proof. split; [cbn; repeat split; lia|]. split; [repeat constructor; cbn; tauto|reflexivity]. Qed.
+
+(* pass-through from block 7 with a target cursor on block 6 (canonical) and on the forked f6: plain
+   delivery from block 7 *)
+Example c06_nonvacuous_through_passed :
+  rn (cu_blk (cur SNew (a 6 4))) < 7 /\ rn (cu_blk (cur SNew f6)) < 7 /\
+  through_cursor_run nv_merged [] 7 (cur SNew (a 6 4)) 9 5 = (map (file_event SNewIrr) [a 7 6; a 8 7; a 9 8], RsOk) /\
+  through_cursor_run nv_merged [f4; f6] 7 (cur SNew f6) 9 5 = (map (file_event SNewIrr) [a 7 6; a 8 7; a 9 8], RsOk).
+Proof. split; [cbn; lia|]. split; [cbn; lia|]. split; vm_compute; reflexivity. Qed.
 
 (* pass-through from block 1 *)
 Example c06_nonvacuous_through :
